@@ -4,6 +4,7 @@ manifest can never drift from what ./run supports)."""
 import json, subprocess, os
 
 HOOK_COMMITS = ["61b94ce", "8f421be"]
+FIX_COMMITS = ["a51fb22", "b0c8ea5", "98c1f4b", "e663d4c", "32aebe9"]
 
 # id -> (engine, category, technique, text, note, design_ref)
 CHECKS = {}
@@ -32,6 +33,17 @@ add("C04", "E", "exploration",
     "All API sequences up to the depth on an online endpoint of each variant, n=1..700 small chunks without flush, and every datagram emitted in the explored two-endpoint model are read back by the library's own reader: <=1400 bytes, no error, no warning, chunk count, chunks bit-identical to what was queued; refusals leave the connection usable; nothing panics.",
     "Trusted: the oracle uses the library's own reader by definition of the property; payload lengths are a boundary set, not every length, in the sequence part (every length is covered by C02's sweep).",
     "DESIGN.md 3/C04")
+
+add("C05", "E", "exploration",
+    "exhaustive enumeration of header bit patterns and field tuples; bounded exhaustive packet families (kind x token x ack x every length x 4 content classes)",
+    "All 2^24 0.6 packet headers, all chunk headers of both versions, 5 x 2^24 0.7 packet headers, all in-range field tuples, and every packet kind x token x ack x payload length 0..max x 4 content classes are packed/unpacked or written/read back and compared; canonical <=> warning-free is decided per bit pattern from doc/packet*.md.",
+    "Trusted: canonical-pattern predicates transcribed from doc/packet.md and doc/packet7.md; payload contents limited to 4 classes (zeros, 'abc', counter, fixed LCG stream).",
+    "DESIGN.md 3/C05")
+add("C06", "E", "exploration",
+    "bounded exhaustive enumeration of attacker datagrams (all short strings, all field/pair corruptions, truncations, extensions, oversize compressed payloads) against every reader entry point",
+    "Every input of the listed finite families goes through Packet::read (all token hints), read_panic_on_decompression, decompress_if_needed, is_initial and ChunksIter of both versions; oracle: returns, no panic, pointer ranges of returned slices inside input or scratch buffer, fields in range, accepted values write and re-read equal.",
+    "Trusted: the families are a bound (strings >3 bytes only through structured corruption); memory safety beyond pointer-range checks is covered by the ASan/Miri runs of C19.",
+    "DESIGN.md 3/C06")
 
 NOT_YET = {}
 
